@@ -21,6 +21,9 @@ type c10Datum struct {
 	ExpNs  int64 `json:"exp_ns"` // expiry mark in ns; 0 = unmarked
 	Val    int64 `json:"val"`
 	Bumped bool  `json:"bumped"` // created at an older time, then updated at AgeS (expiry counts from the last update)
+	// Remark: the datum was first marked with another duration (24h, or 1h if
+	// the final mark is 24h); the last mark governs
+	Remark bool `json:"remark,omitempty"`
 }
 
 type c10Metric struct {
@@ -87,6 +90,13 @@ func c10ViaProgram(c c10Case, base time.Time) (*metrics.Store, []*metrics.Metric
 				v.ProcessLogLine(nil, hx.Line("f", fmt.Sprintf("s%d l%d %d %d", i, j, ts-360000, cd.Val-1)))
 			}
 			v.ProcessLogLine(nil, hx.Line("f", fmt.Sprintf("s%d l%d %d %d", i, j, ts, cd.Val)))
+			if cd.ExpNs != 0 && cd.Remark {
+				first := "24h"
+				if cd.ExpNs == int64(24*time.Hour) {
+					first = "1h"
+				}
+				v.ProcessLogLine(nil, hx.Line("f", fmt.Sprintf("e%d %s l%d", i, first, j)))
+			}
 			if cd.ExpNs != 0 {
 				exp := cd.ExpNs
 				if exp == 1 {
@@ -162,6 +172,15 @@ func runC10x(c c10Case) *vstat.Failure {
 				set(ts.Add(-100 * time.Hour))
 			}
 			set(ts)
+			if cd.ExpNs != 0 && cd.Remark {
+				first := 24 * time.Hour
+				if time.Duration(cd.ExpNs) == first {
+					first = time.Hour
+				}
+				if err := m.ExpireDatum(first, fmt.Sprintf("l%d", j)); err != nil {
+					return vstat.Failf("bad-case", "%v", err)
+				}
+			}
 			if cd.ExpNs != 0 {
 				if err := m.ExpireDatum(time.Duration(cd.ExpNs), fmt.Sprintf("l%d", j)); err != nil {
 					return vstat.Failf("bad-case", "%v", err)
@@ -341,6 +360,7 @@ func TestC10(t *testing.T) {
 						ExpNs:  rapid.SampledFrom(exps).Draw(rt, "exp"),
 						Val:    rapid.Int64Range(-5, 5).Draw(rt, "val"),
 						Bumped: rapid.IntRange(0, 3).Draw(rt, "bumped") == 0,
+						Remark: rapid.IntRange(0, 3).Draw(rt, "remark") == 0,
 					})
 				}
 				c.Metrics = append(c.Metrics, cm)
